@@ -156,13 +156,21 @@ CLAIMS = {
         technique="Rocq proof (tree induction: output invariants) + refutation witnesses + fuzzed correspondence + index scenarios",
         design="§5 C08"),
     "C12": dict(
-        text=("Rocq proof of the text form (kind char, priority exactly for not-done todos, stripped body, newline; strip "
-              "idempotent) and a machine-checked refutation on exported trees (done todo with a Pn-leading body). The round "
-              "trip through the real parser is decided on every run: generated items compiled, rendered with Note.to_string, "
-              "recompiled and compared; ungrouped renderings of whole pages under a header recompiled to the same notes."),
-        note=("PARTIAL: round trip is differential (real parser), not a theorem. Known finding: prefix re-interpretation for "
+        text=("Rocq proof for every abstract item whose words contain no white space: the text zorg emits for the note the "
+              "item denotes (the model of Note.to_string applied to the note spec_page assigns) IS the canonical text of the "
+              "item emit_form it - same kind, identity and words, priority spelled out unless done/cancelled - "
+              "(C12_emitted_text_is_an_item); emit_form it is a valid item again, so the page theorem (C01) applies to every "
+              "page containing it, and it reads as the same note: kind, ZID, body, tags, links, properties, dates, and the "
+              "priority unless done/cancelled (C12_emitted_item_reads_as_the_same_note). Text-form lemmas and a machine-checked "
+              "refutation on exported trees (done todo with a Pn-leading body). On every run: (a) generated items compiled, "
+              "rendered with the real Note.to_string, recompiled and compared; (b) pages rendered ungrouped and recompiled; (c) "
+              "the real db create -> swog.execute / refresh_zoq_file pipeline on indexed directories; (d) on abstract items: "
+              "tidy holds, the model's canonical text is the text compiled, and the real to_string of the really compiled note "
+              "equals the model's render_item (emit_form it)."),
+        note=("PARTIAL: the parser (text -> tree) is not modelled, so the recompilation step is differential; items with "
+              "continuation lines / bullets are outside the abstract syntax. Known finding: prefix re-interpretation for "
               "done/cancelled todos whose body starts with Pn."),
-        technique="Rocq proof (text-form lemmas, refutation witness) + compile/to_string/compile round trip on the implementation",
+        technique="Rocq proof (emitted text = canonical text of an abstract item; same reading; refutation witness) + compile/to_string/recompile and real query-rendering round trips + tie on the theorem's domain",
         design="§5 C12"),
     "C17": dict(
         text=("Rocq proof over the model of run_action_open/_open_link (messages are an inductive with exactly EDIT, "
